@@ -679,12 +679,13 @@ fn push_fields_named(mut fb: FieldsBuilder<MetaForm, scale_info::build::NamedFie
 fn push_fields_unnamed(mut fb: FieldsBuilder<MetaForm, scale_info::build::UnnamedFields>, fs: &[FieldSpec]) -> FieldsBuilder<MetaForm, scale_info::build::UnnamedFields> {
     for f in fs {
         fb = fb.field(|b| {
-            // exercise the other setter order here: type name first, then the type
+            // (setter orders are permuted in the generated builder programs of C17; here the type
+            // comes first so that this crate compiles against any typestate signature)
+            let b = if f.compact { b.compact::<u32>() } else { with_target(&f.target, FieldV(b)) };
             let b = match f.type_name {
                 Some(t) => b.type_name(TYPE_NAMES[t as usize % TYPE_NAMES.len()]),
                 None => b,
             };
-            let b = if f.compact { b.compact::<u32>() } else { with_target(&f.target, FieldV(b)) };
             b.docs_always(leak_docs(&f.docs))
         });
     }
